@@ -551,8 +551,13 @@ def run(ctx) -> dict:
             '(2) argument text interpolated into markup is escaped before the markup is parsed '
             '(forward taint over the CFG of every function that calls an XML text parser).',
         'not_decided':
-            'Language equivalence of translate_pattern with the XSD regex semantics, the '
-            'character-class algebra, and mutual consistency of matches/replace/tokenize/'
-            'analyze-string on values.',
+            'Language equivalence of translate_pattern with the XSD regex semantics (decided '
+            'for the class algebra only: the in-place set operations of CharacterClass, R13.9, '
+            'and the representation laws R13.6), and mutual consistency of matches/replace/'
+            'tokenize/analyze-string on values (decided: the flags are a set, R12.6; replace '
+            'copies unmatched text verbatim, R12.7; tokenize does not leak groups, R12.5). '
+            'Observed and not decided: analyze-string is not a partition when a later group '
+            'matches before an earlier one ((a)|(b))+ on "ba"), [\\t-\\r] is not read as a '
+            'range.',
         'assumptions': ['escaping functions are recognised by name: ' + ', '.join(sorted(ESCAPERS))],
     }
